@@ -23,7 +23,7 @@ META = {
                     "Gram identity C^H C = N*Toeplitz(r_biased): bounded exact algebra (C09 thorough / E3); positive "
                     "semi-definiteness and r[0] >= |r[k]| follow from it (a Gram matrix is PSD): textbook lemma, not re-proved"],
     "bounded_note": "coeff-unit.* tasks are bounded in N (3, 4; 2..5 thorough), all data values; everything else is unbounded",
-    "trusted_base": [],
+    "trusted_base": ["sympy.polys (bounded exact-algebra tasks only)"],
 }
 
 NORMS = ["biased", "unbiased", None, "coeff"]
